@@ -181,7 +181,7 @@ def run_l2(devs, budgets, script="srv_enable_disable", traced=True):
         active = script.startswith("cli")
         settings = secsgem.hsms.HsmsSettings(
             connect_mode=secsgem.hsms.HsmsConnectMode.ACTIVE if active else secsgem.hsms.HsmsConnectMode.PASSIVE,
-            address=ADDR[0], port=ADDR[1], t5=10)
+            address=ADDR[0], port=ADDR[1], t5=0.5 if script.endswith("_short_t5") else 10)
         proto = secsgem.hsms.HsmsProtocol(settings)
         box["proto"] = proto
         step = box["steps"].append
@@ -258,7 +258,7 @@ def run_l2(devs, budgets, script="srv_enable_disable", traced=True):
                     step("selected" if select(p2) else "not-selected")
             proto.disable()
             step("disabled")
-        elif script == "cli_no_listener_disable":
+        elif script in ("cli_no_listener_disable", "cli_no_listener_disable_short_t5"):
             proto.enable()
             step("enabled")
             s.block(lambda: False, s.clock + 3.0, "let it try")
@@ -309,7 +309,7 @@ def run_l2(devs, budgets, script="srv_enable_disable", traced=True):
     return res
 
 
-SCRIPTS = ["srv_enable_disable", "srv_connect_disable", "srv_partial_close_reconnect", "srv_separate_reconnect", "cli_no_listener_disable", "cli_connect_close_disable"]
+SCRIPTS = ["srv_enable_disable", "srv_connect_disable", "srv_partial_close_reconnect", "srv_separate_reconnect", "cli_no_listener_disable_short_t5", "cli_no_listener_disable", "cli_connect_close_disable"]
 
 
 def l1_cases(thorough):
@@ -373,7 +373,7 @@ def run(ctx):
     ctx.setcov("evaluations", tot + n)
     ctx.setcov("distinct_nontrivial", nontriv + len(ctx._nontrivial))
     ctx.setcov("rule", "level 1: session state x stream x every byte offset x {peer close, disable} (x every 2-segment split thorough), each followed "
-                       "by reconnect + select + first message; level 2: 6 enable/disable/connect/close/separate scripts x every schedule with <= K delays; "
+                       "by reconnect + select + first message; level 2: 7 enable/disable/connect/close/separate scripts (one with a connect separation time-out below one second) x every schedule with <= K delays; "
                        "non-trivial = offset > 0 (a partial or complete frame was delivered before the loss) or a schedule with >= 1 delay")
     ctx.setcov("delay_bound_level2", k)
     ctx.setcov("parts", parts)
